@@ -9,7 +9,7 @@ From LibTw2 Require Export Base.Res.
 Open Scope Z_scope.
 
 (* ---------- panic sites ---------- *)
-Definition site_chunks_sub : Z := 1201.        (* delta_chunks: `tick - delta_tick` (debug overflow check) *)
+(* 1201 was delta_chunks: `tick - delta_tick` (debug overflow check); repaired in /repo, see known_findings/C12.json *)
 Definition site_chunks_num_parts : Z := 1202.  (* delta_chunks: (..).assert_i32() *)
 Definition site_chunks_slice : Z := 1203.      (* DeltaChunks::next: &self.data[start..end] *)
 Definition site_recv_unwrap : Z := 1204.       (* snap: self.current.as_mut().unwrap() *)
@@ -89,10 +89,10 @@ Fixpoint chunks_from (tick dt num_parts crc : Z) (data : bytes) (len : Z) (k : n
   end.
 
 (* delta_chunks(tick, delta_tick, data, crc).collect(): the message carries the
-   *relative* tick `tick - delta_tick` *)
+   *relative* tick `tick - delta_tick` (wrapping; `data.len() + 899` cannot overflow
+   a usize for a slice that exists) *)
 Definition delta_chunks (tick base : Z) (data : bytes) (crc : Z) : res unit (list snapmsg) :=
-  let dt := tick - base in                                   (* UNCHANGED TREE: plain `-` *)
-  if negb (is_i32 dt) then Panic site_chunks_sub else
+  let dt := wrap32 (tick - base) in                           (* tick.wrapping_sub(delta_tick) *)
   let len := lenZ data in
   let n := (len + MAX_SNAPSHOT_PACKSIZE - 1) / MAX_SNAPSHOT_PACKSIZE in
   if i32_max <? n then Panic site_chunks_num_parts else
@@ -195,6 +195,33 @@ Fixpoint gather (buf : bytes) (blen : Z) (m : pmap) : option bytes :=
 
 Definition two32 : Z := 4294967296.
 
+(* snap(), from the point where `current` is in place (`c` = *self.current, s2 = self) *)
+Definition snap_store (s2 : receiver) (c : current) (tick dt num_parts part crc : Z) (data : bytes) : rstep :=
+  let ws := if negb (wrap32 (tick - dt) =? c_delta_tick c)    (* both in absolute form *)
+               || negb (num_parts =? c_num_parts c) || negb (crc =? c_crc c)
+            then [DifferingAttributes] else [] in
+  if pm_contains part (r_parts s2) then (s2, (Err DuplicatePart, ws)) else
+  let len := lenZ (r_buf s2) in
+  if two32 <=? len then (s2, (Panic site_recv_u32, ws)) else
+  if two32 <=? len + lenZ data then (s2, (Panic site_recv_u32, ws)) else
+  let s3 := set_buf s2 (r_buf s2 ++ data) in
+  match pm_insert part (len, len + lenZ data) (r_parts s3) with
+  | (parts', Some _) => (set_parts s3 parts', (Panic site_recv_insert, ws))
+  | (parts', None) =>
+    let s4 := set_parts s3 parts' in
+    if i32_max <? Z.of_nat (length parts') then (s4, (Panic site_recv_len_i32, ws)) else
+    if negb (Z.of_nat (length parts') =? c_num_parts c) then (s4, (Ok None, ws)) else
+    let s5 := finish_delta s4 (c_tick c) in
+    match gather (r_buf s5) (lenZ (r_buf s5)) (r_parts s5) with
+    | Some g =>
+      let r := r_result s5 ++ g in
+      (set_result s5 r,
+       (Ok (Some {| rd_delta_tick := c_delta_tick c; rd_tick := c_tick c;
+                    rd_data_and_crc := Some (r, c_crc c) |}), ws))
+    | None => (s5, (Panic site_recv_slice, ws))
+    end
+  end.
+
 Definition snap (s : receiver) (tick dt num_parts part crc : Z) (data : bytes) : rstep :=
   if negb (can_receive s tick) then (s, (Err OldDelta, [])) else
   if negb ((0 <=? num_parts) && (num_parts <=? 32)) then (s, (Err InvalidNumParts, [])) else
@@ -211,31 +238,7 @@ Definition snap (s : receiver) (tick dt num_parts part crc : Z) (data : bytes) :
             end in
   match r_cur s2 with
   | None => (s2, (Panic site_recv_unwrap, []))
-  | Some c =>
-    let ws := if negb (dt =? c_delta_tick c)                 (* UNCHANGED TREE: relative vs absolute *)
-                 || negb (num_parts =? c_num_parts c) || negb (crc =? c_crc c)
-              then [DifferingAttributes] else [] in
-    if pm_contains part (r_parts s2) then (s2, (Err DuplicatePart, ws)) else
-    let len := lenZ (r_buf s2) in
-    if two32 <=? len then (s2, (Panic site_recv_u32, ws)) else
-    if two32 <=? len + lenZ data then (s2, (Panic site_recv_u32, ws)) else
-    let s3 := set_buf s2 (r_buf s2 ++ data) in
-    match pm_insert part (len, len + lenZ data) (r_parts s3) with
-    | (parts', Some _) => (set_parts s3 parts', (Panic site_recv_insert, ws))
-    | (parts', None) =>
-      let s4 := set_parts s3 parts' in
-      if i32_max <? Z.of_nat (length parts') then (s4, (Panic site_recv_len_i32, ws)) else
-      if negb (Z.of_nat (length parts') =? c_num_parts c) then (s4, (Ok None, ws)) else
-      let s5 := finish_delta s4 (c_tick c) in
-      match gather (r_buf s5) (lenZ (r_buf s5)) (r_parts s5) with
-      | Some g =>
-        let r := r_result s5 ++ g in
-        (set_result s5 r,
-         (Ok (Some {| rd_delta_tick := c_delta_tick c; rd_tick := c_tick c;
-                      rd_data_and_crc := Some (r, c_crc c) |}), ws))
-      | None => (s5, (Panic site_recv_slice, ws))
-      end
-    end
+  | Some c => snap_store s2 c tick dt num_parts part crc data
   end.
 
 Definition recv_step (s : receiver) (m : snapmsg) : rstep :=
